@@ -54,6 +54,7 @@ func cyclic(n int, adj []uint) bool {
 // script alphabet
 type scriptT struct {
 	name               string
+	createFail         int
 	fail, limit        int
 	retry, unmet       bool
 	canFail, canSkip   bool
@@ -66,6 +67,7 @@ var scriptsFull = []scriptT{
 	{name: "fail1-retry1", fail: 1, retry: true, limit: 1},
 	{name: "fail2-retry1", fail: 2, retry: true, limit: 1, canFail: true},
 	{name: "fail1-retry2", fail: 1, retry: true, limit: 2},
+	{name: "createfail1-retry1", createFail: 1, retry: true, limit: 1, canFail: false},
 }
 
 var scriptsReduced = []scriptT{scriptsFull[0], scriptsFull[1], scriptsFull[2], scriptsFull[3]}
@@ -150,7 +152,7 @@ func programs(o famOpts, emit func(*Config)) {
 								cfg := &Config{MaxActive: ma, DelayMs: dl}
 								for i := 0; i < n; i++ {
 									sc := o.scripts[idx[i]]
-									st := StepCfg{Name: stepNames[i], Fail: sc.fail, Unmet: sc.unmet, HasRetry: sc.retry, Limit: sc.limit,
+									st := StepCfg{Name: stepNames[i], Fail: sc.fail, CreateFail: sc.createFail, Unmet: sc.unmet, HasRetry: sc.retry, Limit: sc.limit,
 										CoF: opts[i][co[i]].f, CoS: opts[i][co[i]].s}
 									if sc.retry {
 										st.IntervalMs = o.intervalMs
@@ -186,6 +188,8 @@ func programs(o famOpts, emit func(*Config)) {
 
 func st(name string, deps ...string) StepCfg { return StepCfg{Name: name, Depends: deps} }
 
+func createFailing(s StepCfg, n int) StepCfg { s.CreateFail = n; return s }
+
 func retrying(s StepCfg, fail, limit, intervalMs int) StepCfg {
 	s.Fail, s.HasRetry, s.Limit, s.IntervalMs = fail, true, limit, intervalMs
 	return s
@@ -209,6 +213,7 @@ func sharp() []*Config {
 		{Steps: []StepCfg{retrying(st(a), 2, 1, 0), st(b, a)}},                          // retries exhausted
 		{Steps: []StepCfg{st(a), st(b, a), st(c, b)}, DelayMs: 1000},                    // chain with launch delay
 		{Steps: []StepCfg{retrying(st(a), 1, 2, 0), retrying(st(b), 1, 1, 0)}, MaxActive: 2},
+		{Steps: []StepCfg{cof(createFailing(retrying(st(a), 0, 1, 1000), 1)), st(b, a)}}, // first attempt fails before a process exists, continueOn.failure
 	}
 }
 
